@@ -779,6 +779,28 @@ theorem C22_blob_seek_crash_iff (checked : Bool) (start len target : Nat) :
         · split <;> rfl
       · intro ⟨h, _⟩; cases h
 
+/-- **C22_total_blob** — through `blob_reader` a file-backed `BlobReader` only exists for a frame whose
+    stored bytes were read in full (`verifies`), so `start + len ≤ file length < 2^63` and even the
+    unchecked `*start + *pos` cannot overflow; without that pre-read the checked addition is needed. -/
+theorem C22_total_blob (verifies checked : Bool) (hv : (verifies || checked) = true) (fileLen start len target : Nat)
+    (ckOk : Bool) (hlen : fileLen < 2^63) : (blobOpenSeekWith verifies checked fileLen start len target ckOk).Safe := by
+  unfold blobOpenSeekWith
+  split; · rfl
+  rename_i hs
+  split; · rfl
+  rename_i hpre
+  apply Classical.byContradiction
+  intro hc
+  obtain ⟨hck, htl, hov⟩ := (C22_blob_seek_crash_iff _ _ _ _).mp hc
+  subst hck
+  simp only [Bool.or_false] at hv
+  subst hv
+  simp only [Bool.true_and, Bool.and_eq_true, decide_eq_true_eq, Bool.or_eq_true, Bool.not_eq_true', not_and, not_or] at hpre
+  by_cases hl : len > 0
+  · have := (hpre hl).1
+    omega
+  · omega
+
 /-! ### repaired shapes as consequences of the source-derived flags -/
 
 theorem timeIndexRead_safe_of_cap (allocOk : Nat → Bool) (c : Nat) (hcap : TimeIndex.PREALLOC_CAP = some c)
@@ -899,6 +921,9 @@ example : plannerComputeWith true 1 = .panic "debug_assert-wal_pending" := by de
 example : plannerComputeWith false 1 = .ok true := by decide
 example : blobSeekWith false (2^63 - 1) (2^64 - 1) (2^63 + 1) = .panic "add-overflow" := by decide
 example : blobSeekWith true (2^63 - 1) (2^64 - 1) (2^63 + 1) = .err "overflow" := by decide
+example : blobOpenSeekWith true false 1000 (2^63 - 1) (2^64 - 1) (2^63 + 1) false = .err "checksum" := by decide
+example : blobOpenSeekWith false false 1000 (2^63 - 1) (2^64 - 1) (2^63 + 1) false = .panic "add-overflow" := by decide
+example : blobOpenSeekWith true false 1000 100 50 50 true = .ok 50 := by decide
 example : timelineSelect [5, 1, 2^64 - 1, 0] (some 3) 2 = .ok [1] := by decide
 example : ensureNonOverlapping [⟨100, 10, true⟩, ⟨105, 10, true⟩] 1000 = .err "overlap" := by decide
 example : ensureNonOverlapping [⟨2^64 - 1, 10, true⟩] 1000 = .err "overflow" := by decide
